@@ -501,7 +501,9 @@ fn one_sum(w: &mut SumWorld, bytes: &[u8], recipe: &str, rep: &mut Report) {
             if states != reported {
                 rep.fail("c10/state-list-not-as-reported", &format!("devices reported {reported:?}, tx_rx lists {states:?}"), &line);
             }
-            let nonempty = !reported.is_empty();
+            // element-wise oracle on the raw nibbles: a state named by the enum only equals itself,
+            // `Other(n)` equals a reported n that the 4-bit field does not decode to a named state
+            let named = |v: u8| matches!(v, 0 | 1 | 2 | 3 | 4 | 8);
             let has_none = reported.iter().any(|s| *s == 0) && reported.iter().any(|s| *s != 0);
             let key = |has_none: bool| if has_none { "c10/summary-or-fold-loses-none" } else { "c10/summary-or-fold-merges-states" };
             // keep the evidence file small: the first 40 instances of a class are recorded, all are counted
@@ -511,27 +513,26 @@ fn one_sum(w: &mut SumWorld, bytes: &[u8], recipe: &str, rep: &mut Report) {
                     rep.fail(k, what, line);
                 }
             };
-            let elem_all = |v: u8| nonempty && reported.iter().all(|s| *s == v);
-            if nonempty {
-                if all_op != elem_all(8) {
-                    capped(rep, key(has_none), &format!("all_op() = {all_op} for reported states {reported:?}"), &line);
-                }
-                for (d, c) in desired.iter().zip(ins.chars()) {
-                    let want = match d {
-                        SubDeviceState::Bootstrap => false, // documented: always false
-                        other => elem_all(u8::from(*other)),
-                    };
-                    if (c == '1') != want {
-                        capped(rep, key(has_none), &format!("is_in_state({d:?}) = {} for reported states {reported:?}", c == '1'), &line);
+            let all_same = !reported.is_empty() && reported.iter().all(|s| *s == reported[0]);
+            let elem_all = |d: &SubDeviceState| {
+                all_same
+                    && match d {
+                        SubDeviceState::Other(n) => !named(*n) && reported[0] == *n,
+                        other => reported[0] == u8::from(*other),
                     }
+            };
+            if all_op != (all_same && reported[0] == 8) {
+                capped(rep, key(has_none), &format!("all_op() = {all_op} for reported states {reported:?}"), &line);
+            }
+            for (d, c) in desired.iter().zip(ins.chars()) {
+                if (c == '1') != elem_all(d) {
+                    capped(rep, key(has_none), &format!("is_in_state({d:?}) = {} for reported states {reported:?}", c == '1'), &line);
                 }
-                let all_same = reported.iter().all(|s| *s == reported[0]);
-                let want_single = if all_same && reported[0].count_ones() <= 1 { Some(reported[0]) } else { None };
-                let got_single = resp.group_in_single_state().map(u8::from);
-                // a multi-bit common value (BOOTSTRAP, Other) is documented as ambiguous: None accepted
-                if got_single != want_single && !(all_same && got_single.is_none()) {
-                    capped(rep, key(has_none), &format!("group_in_single_state() = {got_single:?} for reported states {reported:?}"), &line);
-                }
+            }
+            let want_single = if all_same { Some(reported[0]) } else { None };
+            let got_single = resp.group_in_single_state().map(u8::from);
+            if got_single != want_single {
+                capped(rep, key(has_none), &format!("group_in_single_state() = {got_single:?} for reported states {reported:?}"), &line);
             }
             let want_bits = reported.iter().fold(0u8, |a, s| a | s);
             if gs != want_bits {
